@@ -17,7 +17,7 @@ Definition known_models : list string :=
     "check_call_args_fixed"; "resolve_call_args_fixed"; "check_struct_args_fixed"; "resolve_struct_args_fixed";
     "unify_report"; "unify_report_fixed";
     "scope_frees"; "return_frees"; "dispose"; "ll_parse"; "ll_link";
-    "link_cmdline"; "link_cmdline_fixed" ].
+    "link_cmdline"; "link_cmdline_fixed"; "sort_aliases" ].
 
 (* models whose permutation invariance is REFUTED (defects of the pinned tree, KNOWN_FINDINGS) *)
 Definition refuted_models : list string :=
